@@ -340,6 +340,10 @@ type rwScenario struct {
 	// waiting for the worker (modes other than "parked" always race).
 	CancelAfter int
 	CancelRace  bool
+	// ExtraShutdowns: Shutdown is called this many times more after it has
+	// returned (a panic is recovered: what such a call returns is not
+	// C18's business, a further Refresh is).
+	ExtraShutdowns int
 	// Window: how long the final refresh is held inside Refresh while the
 	// driver keeps offering the tick of the pending timer.
 	Window time.Duration
@@ -490,6 +494,24 @@ func runRefresh(sc rwScenario) rwResult {
 		return w.snapshot(fmt.Sprintf("Shutdown panicked: %v", pv))
 	}
 	releaseLoop()
+	for x := 0; x < sc.ExtraShutdowns; x++ {
+		w.mu.Lock()
+		w.log = append(w.log, rwEvent{Ev: "shutdown2"})
+		w.mu.Unlock()
+		again := make(chan struct{})
+		go func() {
+			vh.Try(func() { _ = worker.Shutdown(w.shutCtx) })
+			w.mu.Lock()
+			w.log = append(w.log, rwEvent{Ev: "ret2"})
+			w.mu.Unlock()
+			close(again)
+		}()
+		select {
+		case <-again:
+		case <-time.After(watchdog):
+			return w.snapshot("a repeated Shutdown neither returned nor panicked")
+		}
+	}
 	// The pending timer goes off after Shutdown: keep offering the tick for
 	// the grace period.  A worker that observed done is gone and never takes
 	// it; taking it is a refresh cycle after Shutdown.
@@ -536,7 +558,10 @@ func predicted(v rwVec) (evs []rwEvent, sc rwScenario, err error) {
 		case "cancel":
 			sc.CancelAfter = len(sc.LoopOuts)
 			evs = append(evs, rwEvent{Ev: kind})
-		case "tick", "shutdown":
+		case "shutdown2":
+			sc.ExtraShutdowns++
+			evs = append(evs, rwEvent{Ev: kind})
+		case "tick", "shutdown", "ret2":
 			evs = append(evs, rwEvent{Ev: kind})
 		case "refresh":
 			ev := rwEvent{Ev: "refresh", Who: str(e[1]), Cons: num(e[2]) == 1, Live: num(e[3]) == 1, Out: str(e[4]), K: num(e[5])}
@@ -563,6 +588,10 @@ func describe(e rwEvent) string {
 		return fmt.Sprintf("NewRefreshWorker(RefreshOnShutdown=%v)+Start(ctx already cancelled=%v)", e.ROS, e.Canc)
 	case "cancel":
 		return "the application cancels the Start context"
+	case "shutdown2":
+		return "Shutdown is called again"
+	case "ret2":
+		return "the repeated Shutdown returns or panics"
 	case "ask":
 		return fmt.Sprintf("UntilNext#%d(now fresh=%v, contexts cancelled=%v)", e.D, e.Fresh, e.Canc)
 	case "sleep":
@@ -612,6 +641,9 @@ func scenarioKey(sc rwScenario) string {
 		cancel = " Start-context=cancelled-right-after-Start"
 	case sc.CancelAfter >= 0:
 		cancel = fmt.Sprintf(" Start-context=cancelled-after-%d-ticks", sc.CancelAfter)
+	}
+	if sc.ExtraShutdowns > 0 {
+		cancel += fmt.Sprintf(" then-%d-more-Shutdown", sc.ExtraShutdowns)
 	}
 	return fmt.Sprintf("RefreshWorker RefreshOnShutdown=%v mode=%s refreshes=[%s] final=%s%s", sc.ROS, mode,
 		strings.Join(sc.LoopOuts, ","), sc.FinalOut, cancel)
@@ -780,6 +812,7 @@ func recordRefresh(args []string) error {
 		for nt := 0; nt <= 3; nt++ {
 			for _, outs := range patterns(nt) {
 				scs = append(scs, rwScenario{ROS: f.ros, FinalOut: f.out, LoopOuts: outs, Mode: "parked", CancelAfter: -2})
+				scs = append(scs, rwScenario{ROS: f.ros, FinalOut: f.out, LoopOuts: outs, Mode: "parked", CancelAfter: -2, ExtraShutdowns: 1 + nt%2})
 				// the Start context ends: before Start, right after it, before the first tick, before the last
 				scs = append(scs, rwScenario{ROS: f.ros, FinalOut: f.out, LoopOuts: outs, Mode: "parked", CancelAfter: -1})
 				scs = append(scs, rwScenario{ROS: f.ros, FinalOut: f.out, LoopOuts: outs, Mode: "parked", CancelAfter: 0, CancelRace: true})
@@ -795,6 +828,7 @@ func recordRefresh(args []string) error {
 			}
 		}
 		scs = append(scs, rwScenario{ROS: f.ros, FinalOut: f.out, Mode: "early", CancelAfter: -2})
+		scs = append(scs, rwScenario{ROS: f.ros, FinalOut: f.out, Mode: "early", CancelAfter: -2, ExtraShutdowns: 2})
 		scs = append(scs, rwScenario{ROS: f.ros, FinalOut: f.out, Mode: "early", CancelAfter: 0})
 	}
 	// Random block.
@@ -804,6 +838,9 @@ func recordRefresh(args []string) error {
 		nt := rng.IntN(41)
 		if h%5 == 0 {
 			nt = rng.IntN(4)
+		}
+		if rng.IntN(3) == 0 {
+			sc.ExtraShutdowns = 1 + rng.IntN(2)
 		}
 		switch rng.IntN(5) {
 		case 0:
